@@ -21,6 +21,13 @@ pub struct PointRec {
 struct St {
     current: Option<usize>,
     alive: Vec<bool>,
+    /// threads found waiting in a synchronisation primitive the scheduler does not model (a lock, a once-cell the
+    /// code under test brought along) while its holder is pre-empted: they are skipped until they show up again
+    blocked: Vec<bool>,
+    /// number of scheduling decisions taken so far (a stall detector compares it between two timeouts)
+    progress: u64,
+    forced: u32,
+    infeasible: bool,
     prefix: Vec<(usize, u32, Option<usize>)>,
     trace: Vec<PointRec>,
     error: Option<String>,
@@ -48,13 +55,14 @@ pub fn hook(id: u32) {
 
 impl Ctl {
     fn decide(&self, st: &mut St, running: Option<usize>, point_id: u32) {
+        st.progress += 1;
         let mut enabled: Vec<usize> = vec![];
-        let running_enabled = running.map_or(false, |r| st.alive[r]);
+        let running_enabled = running.map_or(false, |r| st.alive[r] && !st.blocked[r]);
         if running_enabled {
             enabled.push(running.unwrap());
         }
         for (t, a) in st.alive.iter().enumerate() {
-            if *a && Some(t) != running {
+            if *a && !st.blocked[t] && Some(t) != running {
                 enabled.push(t);
             }
         }
@@ -63,17 +71,29 @@ impl Ctl {
             return;
         }
         let pos = st.trace.len();
+        // once a thread has been set aside as blocked the execution depends on timing: a recorded prefix may then
+        // not be replayable (the blocked thread is missing from the enabled set); such a branch is infeasible, not an
+        // error of the explorer
+        let timing = st.forced > 0 || st.blocked.iter().any(|b| *b);
         let idx = if pos < st.prefix.len() {
             let (c, pid, by) = st.prefix[pos];
             if pid != point_id || by != running {
-                st.error = Some(format!("divergence while replaying the prefix at point {}: recorded (point {}, thread {:?}), now (point {}, thread {:?})", pos, pid, by, point_id, running));
+                if timing {
+                    st.infeasible = true;
+                } else {
+                    st.error = Some(format!("divergence while replaying the prefix at point {}: recorded (point {}, thread {:?}), now (point {}, thread {:?})", pos, pid, by, point_id, running));
+                }
             }
             c
         } else {
             0
         };
         let idx = if idx >= enabled.len() {
-            st.error = Some(format!("divergence: choice {} out of range ({} enabled) at point {}", idx, enabled.len(), pos));
+            if timing {
+                st.infeasible = true;
+            } else {
+                st.error = Some(format!("divergence: choice {} out of range ({} enabled) at point {}", idx, enabled.len(), pos));
+            }
             0
         } else {
             idx
@@ -87,6 +107,19 @@ impl Ctl {
 
     fn at_point(&self, tid: usize, id: u32) {
         let mut st = self.m.lock().unwrap();
+        if st.current != Some(tid) {
+            // this thread had been set aside as blocked and the operating system has let it go on since: it is
+            // runnable again and waits for its turn (or takes the baton if nobody holds it)
+            st.blocked[tid] = false;
+            st.progress += 1;
+            if st.current.is_none() {
+                st.current = Some(tid);
+            }
+            while st.current != Some(tid) {
+                st = self.cv.wait(st).unwrap();
+            }
+            return;
+        }
         self.decide(&mut st, Some(tid), id);
         if st.current == Some(tid) {
             // keeps running: nobody has to be woken
@@ -108,7 +141,16 @@ impl Ctl {
     fn finish(&self, tid: usize) {
         let mut st = self.m.lock().unwrap();
         st.alive[tid] = false;
-        self.decide(&mut st, Some(tid), u32::MAX);
+        if st.current == Some(tid) {
+            self.decide(&mut st, Some(tid), u32::MAX);
+        } else {
+            // finished without the baton (it had been set aside as blocked and ran on when it was released)
+            st.blocked[tid] = false;
+            st.progress += 1;
+            if st.current.is_none() {
+                self.decide(&mut st, None, u32::MAX);
+            }
+        }
         self.cv.notify_all();
     }
 }
@@ -117,7 +159,16 @@ pub struct Execution<R> {
     pub trace: Vec<PointRec>,
     pub results: Vec<Option<R>>,
     pub error: Option<String>,
+    /// how often a thread had to be set aside because it waited in a primitive the scheduler does not model
+    pub forced: u32,
+    /// the recorded prefix could not be followed because a thread was blocked: not a schedule of its own
+    pub infeasible: bool,
+    /// every live thread waits in such a primitive: the worker threads of this process are lost
+    pub deadlock: bool,
 }
+
+/// a thread that takes no scheduling decision for two periods of this length is considered blocked
+pub const STALL: std::time::Duration = std::time::Duration::from_millis(400);
 
 impl<R> Execution<R> {
     pub fn choices(&self) -> Vec<usize> {
@@ -174,7 +225,7 @@ fn submit(slot: usize, job: Job) {
 pub fn run_once<R: Send + 'static>(bodies: Vec<Box<dyn FnOnce() -> R + Send>>, prefix: &[(usize, u32, Option<usize>)]) -> Execution<R> {
     let n = bodies.len();
     let ctl = Arc::new(Ctl {
-        m: Mutex::new(St { current: None, alive: vec![true; n], prefix: prefix.to_vec(), trace: vec![], error: None }),
+        m: Mutex::new(St { current: None, alive: vec![true; n], blocked: vec![false; n], progress: 0, forced: 0, infeasible: false, prefix: prefix.to_vec(), trace: vec![], error: None }),
         cv: Condvar::new(),
     });
     let (rtx, rrx) = std::sync::mpsc::channel::<(usize, Option<R>)>();
@@ -200,14 +251,59 @@ pub fn run_once<R: Send + 'static>(bodies: Vec<Box<dyn FnOnce() -> R + Send>>, p
         ctl.cv.notify_all();
     }
     let mut results: Vec<Option<R>> = (0..n).map(|_| None).collect();
-    for _ in 0..n {
-        match rrx.recv() {
-            Ok((tid, r)) => results[tid] = r,
-            Err(_) => break,
+    let mut received = 0;
+    let mut last_progress = u64::MAX;
+    let mut stalled = 0;
+    let mut deadlock = false;
+    while received < n {
+        match rrx.recv_timeout(STALL) {
+            Ok((tid, r)) => {
+                results[tid] = r;
+                received += 1;
+                stalled = 0;
+            }
+            Err(std::sync::mpsc::RecvTimeoutError::Disconnected) => break,
+            Err(std::sync::mpsc::RecvTimeoutError::Timeout) => {
+                let mut st = ctl.m.lock().unwrap();
+                if st.progress != last_progress {
+                    last_progress = st.progress;
+                    stalled = 0;
+                    continue;
+                }
+                stalled += 1;
+                if stalled < 2 {
+                    continue;
+                }
+                stalled = 0;
+                // nobody has taken a decision for two periods: the thread holding the baton waits in a primitive
+                // the scheduler does not see. Set it aside and let another thread run.
+                if let Some(c) = st.current {
+                    if st.alive[c] {
+                        st.blocked[c] = true;
+                        st.forced += 1;
+                    }
+                }
+                let next = (0..n).find(|t| st.alive[*t] && !st.blocked[*t]);
+                match next {
+                    Some(t) => {
+                        st.current = Some(t);
+                        st.progress += 1;
+                        last_progress = st.progress;
+                        ctl.cv.notify_all();
+                    }
+                    None => {
+                        if (0..n).any(|t| st.alive[t]) {
+                            st.error = Some("deadlock: every live thread waits in a synchronisation primitive".to_string());
+                            deadlock = true;
+                        }
+                        break;
+                    }
+                }
+            }
         }
     }
     let st = ctl.m.lock().unwrap();
-    Execution { trace: st.trace.clone(), results, error: st.error.clone() }
+    Execution { trace: st.trace.clone(), results, error: st.error.clone(), forced: st.forced, infeasible: st.infeasible, deadlock }
 }
 
 pub struct ExploreStats {
@@ -234,7 +330,7 @@ pub fn explore<R: Send + 'static>(
     stats.max_points = stats.max_points.max(x.trace.len());
     let full: Vec<(usize, u32, Option<usize>)> = x.trace.iter().map(|p| (p.chosen, p.point_id, p.by)).collect();
     on_exec(&x, &full);
-    if x.error.is_some() {
+    if x.error.is_some() || x.infeasible || x.deadlock {
         return;
     }
     for i in prefix.len()..x.trace.len() {
